@@ -68,7 +68,7 @@ Definition dispatch (s : sexp) : sexp :=
                               (legacy_connected (sx_str (sx_arg 1 s))) (map sx_str (sx_list (sx_arg 2 s))))
   else if t =? 13 then  (* legacy order: steps -> tokens of the delivered messages, in order *)
     of_list (fun o => At (m_tok (snd o)))
-            (SseLegacy.run SseLegacy.cfg_patched SseLegacy.SIdle (lconv_events (map sx_cstep (sx_list (sx_arg 0 s)))))
+            (SseLegacy.run SseLegacy.cfg_patched SseLegacy.sinit (lconv_events (map sx_cstep (sx_list (sx_arg 0 s)))))
   else if t =? 20 then  (* agree_ok canon (obs ...) -> (ok first_differing) *)
     let canon := map js_of_sx (sx_list (sx_arg 0 s)) in
     let obs := map (fun o => map js_of_sx (sx_list o)) (sx_list (sx_arg 1 s)) in
